@@ -33,6 +33,11 @@ def slices(tier):
         Slice("cond", [F, G], COND, 3, lits=[LIT["zero"]], levels=[{"lt", "ge", "eq", "ne", "max", "min", "sign"}, {"and", "or", "not", "cond", "max"}, PE], **kw),
         Slice("cond-tensor", [F, G, U, V, A], {"lt", "cond", "index", "add"}, 4, idx=(10,), levels=[{"lt"}, {"cond"}, {"index", "add", "cond"}, PE], **kw),
         Slice("complex", [F, U], {"conj", "real", "imag", "abs", "mul", "inner", "outer", "dot"}, 3, lits=[LIT["i"]], complex_env=True, small=True, finalops=PE, only_final=True, levels=[{"conj", "real", "imag", "abs", "mul", "inner", "outer", "dot"}] * 2 + [PE]),
+        # an index label re-used in nested scopes: a closed inner sum over i inside a summand whose outer index is i as well
+        Slice("reuse-sum", [U, V], {"index", "mul", "lt", "cond"}, 7, idx=(10,), lits=[LIT["zero"]],
+              levels=[{"index"}, {"index"}, {"mul"}, {"lt"}, {"cond"}, {"mul"}, PE], mikinds=("name",), chain="semi", **kw),
+        Slice("reuse-sum-ct", [U, V], {"index", "mul", "lt", "cond", "as_tensor"}, 8, idx=(10,), lits=[LIT["zero"]],
+              levels=[{"index"}, {"index"}, {"mul"}, {"lt"}, {"cond"}, {"as_tensor"}, {"index"}, PE], mikinds=("name", "fixed"), chain="semi", **kw),
         Slice("sqrt", [F, G], {"sqrt", "mul", "abs", "div"}, 3, levels=[{"mul", "abs"}, {"sqrt", "div"}, PE], **kw),
         Slice("deep", [F, G, U, V, A], ARITH | IDX | {"dot", "inner", "outer", "tr", "transpose", "cond", "lt", "max"}, 7, idx=(10, 11), lits=[LIT["two"], LIT["zero"]], finalops=PE, tiny=True, simulate=8 if q else 200, depth=8),
     ]
